@@ -47,6 +47,13 @@ Fixpoint dedup_go (last : ind) (l : list ind) : list ind :=
 Definition dedup_by (l : list ind) : list ind :=
   match l with [] => [] | x :: l' => x :: dedup_go x l' end.
 
+(* specification predicate: no individual of the list is a twin (under dedup) of the one ranked directly before it *)
+Fixpoint no_adjacent_twins (l : list ind) : Prop :=
+  match l with
+  | a :: (b :: _) as t => dedup b a = false /\ no_adjacent_twins t
+  | _ => True
+  end.
+
 (* ---------- HeuristicSpeed (ratio = r/16) ---------- *)
 Inductive speed := SpUnknown | SpModerate | SpSlow (r : Z).
 
@@ -246,6 +253,16 @@ Definition solve_ops (inits : list ind) (gens : list generation) : list op :=
               [OSelect dr hi nd; OAddAll offspring; OGen sp t] end) gens ++ [ORanked].
 Definition solve (p0 : pop) (inits : list ind) (gens : list generation) : option (option ind) :=
   option_map (fun p => hd_error (ranked p)) (run (solve_ops inits gens) p0).
+Definition gen_offspring (g : generation) : list ind := match g with (_, _, _, offspring, _, _) => offspring end.
+(* the elite individuals of a population (Greedy: its best) and, for Rosomaxa in the Initial phase, the stored solutions *)
+Definition initial_solutions (p : pop) : option (list ind) :=
+  match p with PR r => match r_phase r with PInitial sols => Some sols | _ => None end | _ => None end.
+(* what Rosomaxa keeps besides its elite: the Initial solutions, later the bag handed to the GSOM network (create_network / store_batch) *)
+Definition stored (p : pop) : option (list ind) :=
+  match p with
+  | PR r => match r_phase r with PInitial sols => Some sols | PExploration _ net => Some net | PExploitation _ => None end
+  | _ => None
+  end.
 
 End Generic.
 
